@@ -79,6 +79,14 @@ def _cell(codec, container, recs, ext=None):
             ways["neutral path"] = lambda: _read(args=[neutral])
         ways["file object"] = lambda: _read(fileobj=open(path, "rb"))
 
+        def positioned():
+            f = io.BytesIO(b"<16 other bytes>" + data)  # seekable, no peek(); handed over positioned on the first byte of the data
+            f.seek(16)
+            return _read(fileobj=f)
+
+        ways["file object without peek(), positioned behind other data"] = positioned
+        ways["file object without peek()"] = lambda: _read(fileobj=io.BytesIO(data))
+
         def via_stdin():
             saved = sys.stdin
             sys.stdin = types.SimpleNamespace(buffer=io.BufferedReader(io.BytesIO(data)))
@@ -151,7 +159,8 @@ def c11_concurrent(ext=".zst"):
 def c11_adapters():
     from flow.record import RecordWriter
 
-    table = [("a.records", "StreamWriter"), ("a.json", "JsonfileWriter"), ("a.jsonl", "JsonfileWriter"), ("a.avro", "AvroWriter"), ("noext", "StreamWriter")]
+    table = [("a.records", "StreamWriter"), ("a.json", "JsonfileWriter"), ("a.jsonl", "JsonfileWriter"), ("a.avro", "AvroWriter"), ("noext", "StreamWriter"),
+             ("users.csv.records", "StreamWriter"), ("web.json.records.gz", "StreamWriter"), ("dump.avro.records.zst", "StreamWriter"), ("x.records.json", "JsonfileWriter"), ("v1.jsonl.avro", "AvroWriter")]
     with tempfile.TemporaryDirectory() as td:
         for name, want in table:
             w = RecordWriter(os.path.join(td, name))
